@@ -403,6 +403,25 @@ def _contains_own_continue(toks, a, b):
     return False
 
 
+def _contains_own_break(toks, a, b):
+    """does toks[a:b] contain a `break` that belongs to this loop (not a nested loop)?"""
+    k = a
+    while k < b:
+        t = toks[k]
+        if t.kind == "ident" and t.text in ("for", "while", "loop"):
+            m = k
+            while toks[m].text != "{":
+                if toks[m].text in ("(", "["):
+                    m = match_close(toks, m)
+                m += 1
+            k = match_close(toks, m) + 1
+            continue
+        if t.kind == "ident" and t.text == "break":
+            return True
+        k += 1
+    return False
+
+
 _r12 = [0]
 
 
@@ -432,13 +451,30 @@ def split_headers(src, log):
     raise ExtractError("R12 did not converge")
 
 
-def loop_headers(src, log):
-    """R10: enumerate()/&-pattern headers; R11: for-loops containing `continue` -> loop+next()."""
+def _all_loop_keywords(toks):
+    """token indices of every for/while/loop keyword that starts a loop, in textual order"""
+    res = []
+    for k, t in enumerate(toks):
+        if t.kind == "ident" and t.text in ("for", "while", "loop"):
+            p = prev_sig(toks, k)
+            if t.text == "for" and p >= 0 and toks[p].text in ("impl", ">"):
+                continue
+            res.append(k)
+    return res
+
+
+def loop_headers(src, log, keep_for=()):
+    """R10: enumerate()/&-pattern headers; R11: for-loops containing `continue` -> loop+next().
+    `keep_for`: loop ordinals (1-based, all loop kinds, textual order) whose contract is written in the
+    vocabulary of Verus's own `for` desugaring: they stay `for` loops here and are desugared by the
+    weaver (R11w) when they contain a `continue`."""
     counter = [0]
     for _ in range(60):
         toks = tokenize(src)
         changed = False
+        allk = _all_loop_keywords(toks)
         for (kf, kin, bo, bc) in _for_loops(toks):
+            ordinal = allk.index(kf) + 1
             pat = text(toks, next_sig(toks, kf), kin).strip()
             expr = text(toks, kin + 1, bo).strip()
             body = text(toks, bo + 1, bc)
@@ -456,7 +492,7 @@ def loop_headers(src, log):
                 var = pat[1:].strip()
                 new = "for %s_ref in %s { let %s = *%s_ref;%s}" % (var, expr, var, var, body)
                 log.append({"rule": "R10", "shape": "ref-pattern", "var": var})
-            elif _contains_own_continue(toks, bo + 1, bc):
+            elif _contains_own_continue(toks, bo + 1, bc) and ordinal not in keep_for:
                 counter[0] += 1
                 it = "verif_it%d" % counter[0]
                 # label the loop so that woven invariants can name the iterator
